@@ -14,19 +14,21 @@ AllDevs == {"C06.fixed_scale0_fetched_as_decimal", "C06.describe_non_query_unsup
 
 \* type codes of the Snowflake connector: FIXED 0, REAL 1, TEXT 2, DATE 3, VARIANT 5, TIMESTAMP_TZ 7, TIMESTAMP_NTZ 8,
 \* OBJECT 9, ARRAY 10, BINARY 11, TIME 12, BOOLEAN 13
-ColKinds == {"n", "n10", "n102", "i", "f", "s", "s5", "b", "dt", "tm", "ts", "tz", "bin", "v", "o", "ar"}
+ColKinds == {"n", "n10", "n102", "n2012", "i", "f", "s", "s5", "b", "dt", "tm", "ts", "tz", "bin", "v", "o", "ar"}
 ColDesc(k) ==
   CASE k = "n"    -> <<"N", 0, 38, 0>>      [] k = "n10" -> <<"N10", 0, 10, 0>>  [] k = "n102" -> <<"N102", 0, 10, 2>>
+    [] k = "n2012" -> <<"N2012", 0, 20, 12>>
     [] k = "i"    -> <<"I", 0, 38, 0>>      [] k = "f"   -> <<"F", 1, -1, -1>>    [] k = "s"    -> <<"S", 2, -1, -1>>
     [] k = "s5"   -> <<"S5", 2, -1, -1>>    [] k = "b"   -> <<"B", 13, -1, -1>>   [] k = "dt"   -> <<"DT", 3, -1, -1>>
     [] k = "tm"   -> <<"TM", 12, 0, 9>>     [] k = "ts"  -> <<"TS", 8, 0, 9>>     [] k = "tz"   -> <<"TZ", 7, 0, 9>>
     [] k = "bin"  -> <<"BIN", 11, -1, -1>>  [] k = "v"   -> <<"V", 5, -1, -1>>
     [] k = "o"    -> <<"O", -2, -1, -1>>    [] k = "ar"  -> <<"AR", -2, -1, -1>>   \* OBJECT / ARRAY codes: not in the property's list
 ColPy(k) ==
-  CASE k \in {"n", "n10", "i"} -> "int" [] k = "n102" -> "Decimal" [] k = "f" -> "float" [] k \in {"s", "s5", "v", "o", "ar"} -> "str"
+  CASE k \in {"n", "n10", "i"} -> "int" [] k \in {"n102", "n2012"} -> "Decimal" [] k = "f" -> "float" [] k \in {"s", "s5", "v", "o", "ar"} -> "str"
     [] k = "b" -> "bool" [] k = "dt" -> "date" [] k = "tm" -> "time" [] k \in {"ts", "tz"} -> "datetime" [] k = "bin" -> "bytes"
 Status == << <<"status", 2, -1, -1>> >>
-QueryKinds == ColKinds \cup {"two", "count", "litstr", "param", "random", "sample", "starzz"}
+\* "dup": two result columns of the same name and different types (SELECT i, s AS i): one entry per result COLUMN, in order
+QueryKinds == ColKinds \cup {"two", "dup", "count", "litstr", "param", "random", "sample", "starzz"}
 DmlKinds == {"ins", "upd", "del", "merge"}
 StatusKinds == {"createt", "alter", "dropt", "createv", "createsc", "usesc", "usedb", "begin", "commit", "rollback", "setv", "unsetv",
                 "call", "truncate"}
@@ -36,6 +38,7 @@ Kinds == QueryKinds \cup DmlKinds \cup StatusKinds \cup MetaKinds
 Desc(k) ==
   IF k \in ColKinds THEN <<ColDesc(k)>>
   ELSE CASE k = "two"    -> <<ColDesc("n102"), ColDesc("s")>>
+         [] k = "dup"    -> <<ColDesc("i"), <<"I", 2, -1, -1>> >>
          [] k = "count"  -> << <<"C", 0, -2, 0>> >>
          [] k = "litstr" -> << <<"A", 2, -1, -1>> >>
          [] k = "param"  -> <<ColDesc("s")>>
@@ -50,7 +53,7 @@ Desc(k) ==
          [] k \in MetaKinds -> <<>>          \* only the structural clauses are judged (one entry per column, names = keys)
 Py(k) ==
   IF k \in ColKinds THEN <<ColPy(k)>>
-  ELSE CASE k = "two" -> <<"Decimal", "str">> [] k = "upd" -> <<"int", "int">> [] k = "starzz" -> <<>>
+  ELSE CASE k = "two" -> <<"Decimal", "str">> [] k = "dup" -> <<>> [] k = "upd" -> <<"int", "int">> [] k = "starzz" -> <<>>
          [] k \in {"count", "random", "sample", "ins", "del", "merge"} -> <<"int">>
          [] k \in {"litstr", "param"} \cup StatusKinds -> <<"str">> [] k \in MetaKinds -> <<>>
 \* rows the statement's result set holds (ty has one row; the status / count results have one row)
@@ -58,10 +61,10 @@ NRows(k) == IF k \in {"show_schemas", "show_tables"} THEN -1 ELSE IF k = "descri
 
 \* data: rows in ty; orig: the fully populated original row is still there (TRUNCATE removes it); inserted rows have only i set
 InitSt == [last |-> "none", idx |-> 0, data |-> 1, orig |-> TRUE, tx |-> FALSE, sdata |-> 1, sorig |-> TRUE, zzj |-> FALSE]
-OverTy == ColKinds \cup {"two", "sample"}
+OverTy == ColKinds \cup {"two", "dup", "sample"}
 \* number of rows of the result of kind k in state st, and the classes of the non-null values of its j-th row (ORDER BY i)
 NRes(st, k) == IF k \in OverTy THEN st.data ELSE IF k = "param" THEN (IF st.orig THEN 1 ELSE 0) ELSE IF k = "starzz" THEN 0 ELSE 1
-PyRow(st, k, j) == IF k \in OverTy /\ ~(st.orig /\ j = 1) THEN (IF k \in {"i", "sample"} THEN <<"int">> ELSE <<>>) ELSE Py(k)
+PyRow(st, k, j) == IF k = "dup" THEN <<>> ELSE IF k \in OverTy /\ ~(st.orig /\ j = 1) THEN (IF k \in {"i", "sample"} THEN <<"int">> ELSE <<>>) ELSE Py(k)
 
 \* ---- observations ----
 \*  res    : "ok" | "none" (description is None / no row left) | "exc"
